@@ -647,7 +647,13 @@ def item_select_decisions(repo, out):
             node = node.orelse[0]
     # the tail: public attributes derived from the masks
     _match_stmts(body[i_loop + 1:], T_TAIL, h, 'select/derived attributes')
-    _match_stmts(_nodoc(_func(cls, '_set_keep', REL).body), T_SET_KEEP, h, 'DataSet._set_keep')
+    sk = _func(cls, '_set_keep', REL)
+    if ([x.arg for x in sk.args.args] != ['self', 'time_keep', 'freq_keep', 'corrprod_keep', 'weights_keep', 'flags_keep']
+            or len(sk.args.defaults) != 5
+            or not all(isinstance(x, ast.Constant) and x.value is None for x in sk.args.defaults)):
+        raise TranslateError('DataSet._set_keep: signature is not (self, time_keep=None, freq_keep=None, corrprod_keep=None, '
+                             'weights_keep=None, flags_keep=None)')
+    _match_stmts(_nodoc(sk.body), T_SET_KEEP, h, 'DataSet._set_keep')
     # helpers
     f1 = _funcdef_module(tree, '_selection_to_list')
     if [x.arg for x in f1.args.args] != ['names'] or not f1.args.kwarg or f1.args.kwarg.arg != 'groups':
